@@ -712,19 +712,29 @@ def tkindOf : CTy → TKind
   | .prim _ .real => .real
   | _ => .other
 
-def isKM : CTy → Bool
-  | .str _ k _ _ => k != "UTF8String"
-  | _ => false
+/-- `expr_get_PER_type`: the terminal kind as the PER emitters see it — the time types are VisibleString types
+    (X.680 46.3, 47.3) -/
+def perKind : TKind → Option CTy → TKind
+  | _, some (.prim _ .utcTime) => .km "VisibleString"
+  | _, some (.prim _ .genTime) => .km "VisibleString"
+  | tk, _ => tk
 
-/-- type-level `encoding_constraints` of the descriptor generated for `t` (`emit_type_DEF` decides on the
-    pointers from the type's own syntactic kind, the emitters fill the records from the terminal type) -/
+/-- type-level `encoding_constraints` of the descriptor generated for `t`.  PER: `emit_type_DEF` and
+    `emit_member_PER_constraints` both decide on the terminal type (`expr_get_PER_type`), so a type assignment
+    that merely references (or tags) an ENUMERATED / CHOICE / known-multiplier string / time type carries the
+    records of the type it references (F38, F123, F111 repaired).  OER: `emit_type_DEF` still decides on the
+    pointer from the type's own syntactic kind, the emitter fills the record from the terminal type. -/
 def typeEnc (M : Module) (o : Opts) (t : CTy) : Enc :=
   let (cc, alpha) := combinedOf M t
-  let tk := match terminal M M.fuel t with | some t' => tkindOf t' | none => .other
+  let term := terminal M M.fuel t
+  let tk := match term with | some t' => tkindOf t' | none => .other
+  let ptk := perKind tk term
+  let perSpecial := match ptk with | .enumerated _ _ | .choice _ _ | .km _ => true | _ => false
   let isEnum := match t with | .enumerated _ _ _ => true | _ => false
   let isChoice := match t with | .constr _ .choice _ _ => true | _ => false
-  let (per, oer) := encTables tk cc alpha
-  { per := if o.genPER && (cc.isSome || isEnum || isChoice || isKM t) then some per else Option.none
+  let (per, _) := encTables ptk cc alpha
+  let (_, oer) := encTables tk cc alpha
+  { per := if o.genPER && (cc.isSome || perSpecial) then some per else Option.none
     oer := if o.genOER && (cc.isSome || isEnum || isChoice) then some oer else Option.none }
 
 /-- member-level `encoding_constraints`: only when the member has constraints of its own (`expr->constraints`) -/
